@@ -2049,3 +2049,77 @@ pub mod flowfx {
         pub fn bad_save<W: Write>(&self, w: &mut W) -> std::io::Result<()> { w.write_all(&(self.content.len() as u64).to_le_bytes()) }
     }
 }
+
+// ---------------------------------------------------------------- R-MATCHVERIFY
+pub mod matchfx {
+    pub fn ok_from_zero(data: &[u8], cand: usize, pos: usize) -> usize {
+        let mut n = 0;
+        while pos + n < data.len() && data[cand + n] == data[pos + n] {
+            n += 1;
+        }
+        n
+    }
+    pub fn ok_verified(data: &[u8], text: &[u8], cand: usize, pos: usize, min: usize) -> usize {
+        if cand + min > text.len() || pos + min > data.len() || &text[cand..cand + min] != &data[pos..pos + min] {
+            return 0;
+        }
+        let mut n = min;
+        while pos + n < data.len() && cand + n < text.len() && text[cand + n] == data[pos + n] {
+            n += 1;
+        }
+        n
+    }
+    pub fn bad_trusts_hash(data: &[u8], text: &[u8], cand: usize, pos: usize, min: usize) -> usize {
+        if cand + min > text.len() || pos + min > data.len() {
+            return 0;
+        }
+        let mut n = min;
+        while pos + n < data.len() && cand + n < text.len() && text[cand + n] == data[pos + n] {
+            n += 1;
+        }
+        n
+    }
+}
+
+// ---------------------------------------------------------------- R-SEQ.shared
+pub mod sharedfx {
+    use std::sync::Mutex;
+    pub fn bad_blocks(input: &[u8]) -> Vec<u8> {
+        let out: Mutex<Vec<Vec<u8>>> = Mutex::new(Vec::new());
+        std::thread::scope(|s| {
+            for block in input.chunks(4) {
+                let out = &out;
+                s.spawn(move || {
+                    let enc: Vec<u8> = block.iter().map(|b| b ^ 1).collect();
+                    out.lock().unwrap().push(enc);
+                });
+            }
+        });
+        out.into_inner().unwrap().concat()
+    }
+    pub fn ok_blocks(input: &[u8]) -> Vec<u8> {
+        let mut pieces: Vec<Vec<u8>> = Vec::new();
+        std::thread::scope(|s| {
+            let hs: Vec<_> = input.chunks(4).map(|block| s.spawn(move || block.iter().map(|b| b ^ 1).collect::<Vec<u8>>())).collect();
+            for h in hs {
+                pieces.push(h.join().unwrap());
+            }
+        });
+        pieces.concat()
+    }
+    pub fn ok_sorted(input: &[u8]) -> Vec<u8> {
+        let out: Mutex<Vec<(usize, Vec<u8>)>> = Mutex::new(Vec::new());
+        std::thread::scope(|s| {
+            for (i, block) in input.chunks(4).enumerate() {
+                let out = &out;
+                s.spawn(move || {
+                    let enc: Vec<u8> = block.iter().map(|b| b ^ 1).collect();
+                    out.lock().unwrap().push((i, enc));
+                });
+            }
+        });
+        let mut v = out.into_inner().unwrap();
+        v.sort_by_key(|p| p.0);
+        v.into_iter().flat_map(|p| p.1).collect()
+    }
+}
